@@ -63,7 +63,8 @@ def _read_status(path, calls=None):
     return begun, done, pid, loaded, quit_
 
 
-def run_probes(probes, native_dir, repo, workdir, per_probe_timeout=60.0, batch_timeout=900.0, info=None):
+def run_probes(probes, native_dir, repo, workdir, per_probe_timeout=60.0, batch_timeout=900.0, info=None,
+               extra_asan=""):
     """-> list of outcomes (same length/order as probes)"""
     workdir = Path(workdir)
     workdir.mkdir(parents=True, exist_ok=True)
@@ -86,7 +87,7 @@ def run_probes(probes, native_dir, repo, workdir, per_probe_timeout=60.0, batch_
         env = dict(os.environ)
         env["LD_PRELOAD"] = asan_runtime()
         opts = f"detect_leaks=0:halt_on_error=0:abort_on_error=0:allocator_may_return_null=1:log_path={logbase}"
-        env["ASAN_OPTIONS"] = opts
+        env["ASAN_OPTIONS"] = opts + ((":" + extra_asan) if extra_asan else "")
         env["UBSAN_OPTIONS"] = f"print_stacktrace=0:log_path={logbase}"
         env["PYTHONDONTWRITEBYTECODE"] = "1"
         env["MPLBACKEND"] = "Agg"
